@@ -409,6 +409,7 @@ func RunW2(opt *W2Opt, plan, sched *simrt.Source, trace bool) *RunOut {
 			c.Method = MPoolEMMulti
 		}
 		c.HasOpt = g.Pct(opt.OptPct)
+		c.HasOptFn = g.Pct(opt.OptPct)
 		c.PresetTag = false // (requests overlap here: each has its own Stag)
 		c.OddKeys = g.Pct(12)
 		if HasTag(c.Method) && g.Pct(opt.NilTagPct) {
